@@ -6,6 +6,7 @@ ids="$@"; [ -z "$ids" ] && ids=$(ls seeded)
 for m in $ids; do
   d=seeded/$m
   checks=$( [ -f $d/checks ] && cat $d/checks || jq -r '.property' $d/meta.json )
+  if [ ! -f $d/patch.diff ]; then echo "$m: obsolete (no patch.diff, see meta.json)"; continue; fi
   if ! git -C /repo apply --check $PWD/$d/patch.diff 2>/dev/null; then echo "$m: patch does not apply"; continue; fi
   git -C /repo apply $PWD/$d/patch.diff
   for c in $checks; do
